@@ -53,6 +53,24 @@ pub mod enc_spec {
         assert(enc_int(0) =~= seq![2u8, 1u8, 0u8]);
     }
 
+    // RFC 3414 §2.4 UsmSecurityParameters
+    pub open spec fn enc_usm(engine_id: Seq<u8>, boots: int, time: int, user: Seq<u8>, auth: Seq<u8>, privp: Seq<u8>) -> Seq<u8> {
+        tlv(0x30, enc_octets(engine_id) + enc_int(boots) + enc_int(time) + enc_octets(user) + enc_octets(auth) + enc_octets(privp))
+    }
+    // RFC 3412 §6 ScopedPDU: contextEngineID, contextName (always empty here), data
+    pub open spec fn enc_scoped(engine_id: Seq<u8>, pdu: Seq<u8>) -> Seq<u8> {
+        tlv(0x30, enc_octets(engine_id) + enc_octets(Seq::<u8>::empty()) + pdu)
+    }
+    // msgFlags octet (RFC 3412 §6.4): bit 0 auth, bit 1 priv, bit 2 reportable
+    pub open spec fn flags_octet(auth: bool, privf: bool, report: bool) -> u8 {
+        ((if auth { 1int } else { 0int }) + (if privf { 2int } else { 0int }) + (if report { 4int } else { 0int })) as u8
+    }
+    // RFC 3412 §6 SNMPv3Message: version 3, HeaderData{msgID, msgMaxSize 2048, msgFlags, msgSecurityModel 3 (USM)},
+    // msgSecurityParameters (OCTET STRING wrapping the USM sequence), msgData
+    pub open spec fn enc_v3(msg_id: int, flags: u8, usm: Seq<u8>, data: Seq<u8>) -> Seq<u8> {
+        tlv(0x30, enc_int(3) + tlv(0x30, enc_int(msg_id) + enc_int(2048) + tlv(4, seq![flags]) + enc_int(3)) + tlv(4, usm) + data)
+    }
+
     pub proof fn lemma_enc_int_small(x: int)
         requires 0 <= x < 128
         ensures enc_int(x) == seq![2u8, 1u8, x as u8]
